@@ -3,8 +3,10 @@ package c03
 import (
 	"fmt"
 	"os"
+	"sort"
 	"strings"
 	"testing"
+	"time"
 )
 
 // TestDevShow prints the outcome of every case of small spaces (development aid).
@@ -110,4 +112,46 @@ func TestDevReaderStack(t *testing.T) {
 		}
 		fmt.Printf("%-26s survives from ceiling %8d KiB   %s\n", name, smallest>>10, sig)
 	}
+}
+
+func TestDevSlow(t *testing.T) {
+	name := os.Getenv("C03_SLOW")
+	if name == "" {
+		t.Skip()
+	}
+	sp, err := buildSpace(name, false, auxData{})
+	if err != nil {
+		t.Fatal(err)
+	}
+	x := newExecutor()
+	byVal := map[string]float64{}
+	byCtx := map[string]float64{}
+	for i := int64(0); i < sp.Size; i += 2 {
+		k := sp.Case(i)
+		t0 := time.Now()
+		r := x.run(&k, 0)
+		dt := time.Since(t0).Seconds()
+		parts := strings.SplitN(k.Stratum, "/", 2)
+		byCtx[parts[0]] += dt
+		byVal[parts[1]] += dt
+		if dt > 0.2 {
+			fmt.Printf("SLOW %.2fs %s %s\n", dt, k.Stratum, r.Outcome)
+		}
+	}
+	top := func(m map[string]float64) {
+		type kv struct {
+			k string
+			v float64
+		}
+		var l []kv
+		for k, v := range m {
+			l = append(l, kv{k, v})
+		}
+		sort.Slice(l, func(i, j int) bool { return l[i].v > l[j].v })
+		for i := 0; i < 12 && i < len(l); i++ {
+			fmt.Printf("  %-50s %.2fs\n", l[i].k, l[i].v)
+		}
+	}
+	top(byVal)
+	top(byCtx)
 }
